@@ -33,6 +33,34 @@ def set_partition(adds, nons):
     constants.POLLUTANTS = pol
 
 
+def set_partition_by_load(adds, nons, keys):
+    """the partition is declared the way a user of saved models declares it: a configuration file with (some of) the keys
+    pollutants / additive_pollutants / non_additive_pollutants is loaded with Model.load.  Keys the file does not carry keep
+    the value they had (set consistently beforehand); the rest of the process state is left as the load leaves it."""
+    import contextlib
+    import io
+    import os
+    import tempfile
+    import yaml
+    from wsimod.core import constants
+    from wsimod.orchestration.model import Model
+    set_partition(adds, nons)
+    want = {"pollutants": list(constants.POLLUTANTS), "additive_pollutants": list(adds), "non_additive_pollutants": list(nons)}
+    for k in keys:
+        # what the file declares must come from the file: the constant is set to something stale first
+        setattr(constants, k.upper(), ["stale"])
+    cfg = {"nodes": {"w": {"type_": "Waste", "name": "w"}}, "arcs": {}}
+    cfg.update({k: want[k] for k in keys})
+    acc = constants.FLOAT_ACCURACY
+    with tempfile.TemporaryDirectory(prefix="c10_") as d:
+        with open(os.path.join(d, "config.yml"), "w") as f:
+            yaml.safe_dump(cfg, f)
+        with contextlib.redirect_stdout(io.StringIO()):
+            Model().load(d)
+    constants.FLOAT_ACCURACY = acc
+    return want
+
+
 def reset_partition():
     from wsimod.core import constants
     constants.set_default_pollutants()
